@@ -7,6 +7,7 @@ import re
 
 ROOT = os.path.dirname(os.path.dirname(os.path.abspath(__file__)))
 NOTES = {
+    "C06_r6m3_bonus_third_mutant_different_file_context_get_resource": "a bonus change its author assigned to the concurrent-generation property: the entry of a generation in flight is cleared only on success; reported by C04 (fixed scenario `failed_generation_with_waiters`)",
     "C15_r4m1__context_context__run_teardown_callbacks_a_debug_log_line": "NOT reported on the current tree, correctly: the change relied on defect F16 (`callable_name()` failing for callable objects); since the F16 fix it breaks nothing, its own demonstration passes, and the checks are silent. It was reported (C15 `callbacks-not-once`, C01) before that fix",
     "C18_r4m1_src_asphalt_core__event_py_the_registry": "not a C18 violation on the unchanged `Context` (contexts compare by identity, and a value-equal `Context` subclass already fails in the unchanged parent's child registry); the changed mechanism - value-equal owners sharing one channel - is C11's and is reported there through the value-equal owner class",
     "C01_r4m2_context__run_teardown_callbacks_no_longer_pops_the_callback": "the same callable object registered twice with another registration in between (one invocation per registration)",
